@@ -23,8 +23,19 @@ MissingCase(c, idx)  == [k |-> "missing_test_case", total |-> c, idx |-> idx]
 
 Idx(pop) == 1..Len(pop)
 
-Maximal(pop, S) == {i \in S : \A j \in S : pop[j].score <= pop[i].score}
-Minimal(pop, S) == {i \in S : \A j \in S : pop[j].score >= pop[i].score}
+(* the members of S that no member of S beats; written through the set of     *)
+(* score VALUES (small) so that it is evaluated in linear time on populations *)
+(* of thousands: i is maximal in S iff its score is the greatest score in S   *)
+ScoreValues(pop, S) == {pop[i].score : i \in S}
+Maximal(pop, S) == IF S = {} THEN {}
+                   ELSE LET m == CHOOSE x \in ScoreValues(pop, S) : \A y \in ScoreValues(pop, S) : y <= x
+                        IN {i \in S : pop[i].score = m}
+Minimal(pop, S) == IF S = {} THEN {}
+                   ELSE LET m == CHOOSE x \in ScoreValues(pop, S) : \A y \in ScoreValues(pop, S) : y >= x
+                        IN {i \in S : pop[i].score = m}
+(* the defining property (checked by TLC on every small population: MaximalIsUnbeaten) *)
+Unbeaten(pop, S) == {i \in S : \A j \in S : pop[j].score <= pop[i].score}
+Unbeating(pop, S) == {i \in S : \A j \in S : pop[j].score >= pop[i].score}
 
 BestOutcomes(pop)   == IF Len(pop) = 0 THEN {EmptyPopulation} ELSE {Member(i) : i \in Maximal(pop, Idx(pop))}
 WorstOutcomes(pop)  == IF Len(pop) = 0 THEN {EmptyPopulation} ELSE {Member(i) : i \in Minimal(pop, Idx(pop))}
